@@ -499,6 +499,12 @@ def tokens_to_bytes(toks, table):
 # ------------------------------------------------------------------ the run
 
 def run(res, tier, seed, replay):
+    # one run at a time: the work directory and the cli target directory are shared
+    with vlib.Lock("c19-run"):
+        _run(res, tier, seed, replay)
+
+
+def _run(res, tier, seed, replay):
     import time
     t0 = time.time()
     phases = {}
